@@ -303,11 +303,11 @@ def coq_alg(a):
     return f"(AAuto {a[1]} {a[2]})"
 
 
-def coq_dobs(o):
+def coq_dobs(o, loose=False):
     if o["cls"] == "err":
         return f"(DErr {o['err']})"
     if o["cls"] == "vec":
-        return f"(DVec {T.zrow(o['val'])})"
+        return f"({'DVecT' if loose else 'DVec'} {T.zrow(o['val'])})"
     return "DOther"
 
 
@@ -320,7 +320,7 @@ def coq_tobs(o):
 
 
 def coq_tcase(t, n, dqs, dobs, tqs, tobs):
-    dq = ";".join(f"(({k})%Z, {coq_alg(a)}, {coq_dobs(o)})" for (k, a), o in zip(dqs, dobs))
+    dq = ";".join(f"(({k})%Z, {coq_alg(a)}, {coq_dobs(o, a[0] == 'tol')})" for (k, a), o in zip(dqs, dobs))
     tq = ";".join(f"({coq_alg(a)}, {coq_tobs(o)})" for a, o in zip(tqs, tobs))
     return "{| te := " + T.coq(t) + f"; tn := {n}; tdq := [{dq}]; ttq := [{tq}] |}}"
 
